@@ -594,6 +594,33 @@ def buffered_drop_discipline(ctx, rule, bodies, armed=True):
     return n
 
 
+def aggregates_deep(lib, b, adt_suffix):
+    """constructions of an ADT in `b` and in the closures created in `b` (a `for` loop turned into `filter_map(|f| ..)`, with helpers the
+    closure calls already spliced in): [(anchor block in b, statement, body that holds the statement, block there)]. The anchor of a
+    construction inside a closure is the block of `b` that creates the closure: what dominates the creation dominates every call of it."""
+    from ..analysis import aggregates, closure_creation
+    out = [(bi, s_, b, bi) for bi, s_ in aggregates(b, adt_suffix)]
+    for cp in lib.closures_of(b.path):
+        cb = lib.body(cp)
+        if cb is None:
+            continue
+        inner = aggregates(cb, adt_suffix)
+        if not inner:
+            continue
+        # climb to the closure that `b` itself creates
+        top, cr = cp, closure_creation(lib, cp)
+        hops = 0
+        while cr is not None and cr[0] is not b and hops < 4:
+            top = cr[0].path
+            cr = closure_creation(lib, top)
+            hops += 1
+        if cr is None or cr[0] is not b:
+            continue
+        for bi, s_ in inner:
+            out.append((cr[1], s_, cb, bi))
+    return out
+
+
 def reevaluate(ctx, new_rule, fn, *args):
     """run another property's rule function and re-label the obligations it adds as `new_rule` (cross-reference)"""
     before = len(ctx.obligations)
